@@ -325,6 +325,24 @@ func c11Handler(w *vfWorld, blocks []c11Block, peers []string, c *vfeng.Ctx) {
 			c.Violate(fmt.Sprintf("C11|%s|certGenHandler", cls), fmt.Sprintf("blocks=%v peer=%q /certgen status %d, expected inside=%v", c11BlockStrs(blocks), peer, r3.Code, exp), pt)
 			continue
 		}
+		// the same blocks on a certificate whose identity also holds a role (automation
+		// administrator, administrator): from outside its blocks it opens nothing, in
+		// particular not the endpoint that mints automation certificates
+		bad := false
+		for _, who := range []string{"autoadmin", "admin"} {
+			cidrs := c11BlockStrs(blocks)
+			rl := w.vfIssueRoleCert(who, vfKeys.userEC.Public(), cidrs...)
+			mform := url.Values{"identity": {vfAutoUser}, "pubkey": {c11PubB64()}, "requestor_netblock": {"0.0.0.0/0"}, "target_netblock": {"0.0.0.0/0"}}
+			r4 := w.Do(vfReq{Method: "POST", Path: getRoleRequestingPath, Form: mform, TLS: w.vfTLSFor(rl), Remote: peer}.Build())
+			c.Eval(1)
+			if !exp && r4.Code == 200 {
+				c.Violate("C11|authenticated-from-outside|roleRequetingCertGenHandler|certificate-of-"+who, fmt.Sprintf("an IP-restricted certificate for %q (blocks %v) presented from %q obtained an automation certificate from the mint endpoint (status %d)", who, cidrs, peer, r4.Code), pt)
+				bad = true
+			}
+		}
+		if bad {
+			continue
+		}
 		c.Class(fmt.Sprintf("handler|inside=%v|refresh=%d|certgen=%d", exp, r2.Code, r3.Code), pt)
 	}
 }
@@ -627,7 +645,7 @@ func init() {
 	vfRegister(&vfeng.Check{
 		ID:    "C11",
 		Level: "model_checking",
-		Rule:  "exhaustive product prefix length 0..32 x 7 base addresses x boundary peers (network, broadcast, +-1, middle, single-bit flips) x peer forms (v4, v4-mapped v6, v6 incl. addresses whose low 32 bits spell an inside address, zone, no port, text) plus multi-block lists, at library level (GenIPRestrictedX509Cert -> Verify/Extract) and through the real mint / refresh / certgen handlers with realistic verified chains; plus structurally corrupted extensions (bit lengths 0..48, wrong family, an IPv4-unicast family next to families of another / no SAFI or another length, 300 blocks, every truncation and byte flip) signed by a trusted CA, probed from outside and - where a block is honoured - refreshed from inside it (the new certificate stays within the honoured blocks), through the handlers under three certificate-method configurations; oracle: uint32 arithmetic",
+		Rule:  "exhaustive product prefix length 0..32 x 7 base addresses x boundary peers (network, broadcast, +-1, middle, single-bit flips) x peer forms (v4, v4-mapped v6, v6 incl. addresses whose low 32 bits spell an inside address, zone, no port, text) plus multi-block lists, at library level (GenIPRestrictedX509Cert -> Verify/Extract) and through the real mint / refresh / certgen handlers with realistic verified chains (also: certificates whose identity is an administrator or automation administrator, presented to the mint endpoint); plus structurally corrupted extensions (bit lengths 0..48, wrong family, an IPv4-unicast family next to families of another / no SAFI or another length, 300 blocks, every truncation and byte flip) signed by a trusted CA, probed from outside and - where a block is honoured - refreshed from inside it (the new certificate stays within the honoured blocks), through the handlers under three certificate-method configurations; oracle: uint32 arithmetic",
 		Assumptions: []string{"IPv4-mapped IPv6 peers denote the same IPv4 address", "a peer string without a port is not a TCP peer address and must be refused"},
 		Shards: func(tier string) int { return 12 },
 		Run: func(c *vfeng.Ctx) {
